@@ -656,9 +656,9 @@ void ClipperOffset::Execute(double delta, PolyTree64& polytree)
 {
 	polytree.Clear();
 	solution_tree = &polytree;
-	solution = new Paths64();
+	Paths64 paths; // automatic storage: released when ExecuteInternal throws
+	solution = &paths;
 	ExecuteInternal(delta);
-	delete solution;
 	solution = nullptr;
 }
 
